@@ -61,6 +61,7 @@ where
       let s_next = s.clone();
       let s_error = s.clone();
       let s_complete = s.clone();
+      let s_alive = s.clone();
 
       *sbsc.write().unwrap() = Some(
         utils::ready_set_go(
@@ -90,6 +91,13 @@ where
           },
         ),
       );
+      // the replay may have ended the subscriber (stored terminal, or it left
+      // during the replay): the inner subject must not keep holding it
+      if !s_alive.is_subscribed() {
+        if let Some(sbsc) = &*sbsc.read().unwrap() {
+          sbsc.unsubscribe();
+        }
+      }
     })
   }
 
